@@ -12,6 +12,7 @@ pub mod c09;
 pub mod c10;
 pub mod c11;
 pub mod c12;
+pub mod c13;
 pub mod c14;
 pub mod c15;
 pub mod c16;
@@ -34,6 +35,7 @@ pub fn run(ctx: &Ctx) -> bool {
         "C10" => c10::run(ctx),
         "C11" => c11::run(ctx),
         "C12" => c12::run(ctx),
+        "C13" => c13::run(ctx),
         "C14" => c14::run(ctx),
         "C15" => c15::run(ctx),
         "C16" => c16::run(ctx),
@@ -61,6 +63,7 @@ fn replay_one(ctx: &Ctx, sub: &str, input: &serde_json::Value) -> Option<Result<
         "C10" => c10::replay(ctx, sub, input),
         "C11" => c11::replay(ctx, sub, input),
         "C12" => c12::replay(ctx, sub, input),
+        "C13" => c13::replay(ctx, sub, input),
         "C14" => c14::replay(ctx, input),
         "C15" => c15::replay(ctx, sub, input),
         "C16" => c16::replay(ctx, sub, input),
